@@ -134,7 +134,6 @@ Fails(excs) == /\ E.exc \in excs
 Init == l = 1 /\ m = EmptyMap /\ kind = EmptyMap
 
 Reset == IsEv("reset") /\ m' = EmptyMap /\ kind' = EmptyMap
-         /\ (Mode = "own" => (E.led = <<>> /\ E.lerr = 0))        \* everything deleted: no instance left
 
 End == IsEv("end") /\ UNCHANGED <<m, kind>>
        /\ (Mode = "own" => (E.led = <<>> /\ E.lerr = 0))
